@@ -622,7 +622,19 @@ func pushingWhile(w While, srcsel int, fl flags.Pass, cr compResult) bytecode.Ty
 	body := w.Body.byteCode(0, fl.Data().Pass(flags.WithDiscard(false)), cr)
 
 	if body.Src0() == bytecode.AddrInv {
-		panic("while body result is invalid in non-discarding while")
+		// the body always leaves the function (it ends in a return), so control
+		// never comes back to the loop: its only own result is the initial nil of
+		// a loop that is not entered
+		endAddr := len(*cr.CS)
+		if returning {
+			instr = bytecode.New(bytecode.RET) | bytecode.EncodeSrc(0, bytecode.AddrStck, 0)
+			*cr.CS = append(*cr.CS, instr)
+		}
+		(*cr.CS)[initJmpFAddr] |= bytecode.EncodeSrc(1, bytecode.AddrImm, endAddr-initJmpFAddr)
+		if returning {
+			return bytecode.EncodeSrc(srcsel, bytecode.AddrInv, 0)
+		}
+		return bytecode.EncodeSrc(srcsel, bytecode.AddrStck, 0)
 	}
 
 	jumpBack := bodyAddr
